@@ -8,6 +8,7 @@ pub mod c10;
 pub mod c12;
 pub mod c14;
 pub mod c15;
+pub mod c13;
 use crate::Ctx;
 pub fn run(prop: &str, ctx: &mut Ctx) -> bool {
     match prop {
@@ -20,6 +21,7 @@ pub fn run(prop: &str, ctx: &mut Ctx) -> bool {
         "C01" | "C02" | "C03" | "C04" => { let n = ctx.budget(72, 12); qrig::standard_histories(ctx, &prop.to_lowercase(), n) }
         "C14" => c14::run(ctx),
         "C15" => c15::run(ctx),
+        "C13" => c13::run(ctx),
         _ => return false,
     }
     true
